@@ -32,7 +32,9 @@ func Check() error {
 	for _, svcs := range servicesToCheck {
 		for _, svc := range svcs {
 			_, err := svc.Ping()
-			return err
+			if err != nil {
+				return err
+			}
 		}
 	}
 	rate := stat.GetRate()
